@@ -19,6 +19,13 @@ from lint.common import AnalysisBroken
 LEVEL = 'other'
 
 
+def aside(run, rule, fn, what):
+    """a shape rule that does not recognise a spelling steps aside for an operation the semantic rule C20.e has decided: recorded as
+    discharged *through C20.e* (so instance floors stay meaningful), never reported and never refused"""
+    run.ob(rule, '%s (%s): spelled differently from the recognised form; verdict taken from C20.e' % (fn.short, what), True, where=fn.pat)
+    run.note('%s (%s) steps aside for %s: decided by C20.e' % (rule, what, fn.short))
+
+
 def capacity_of(F, fn):
     rec = F.rec_by_name.get(fn.cls) or {}
     return rec.get('consts', {}).get('CAPACITY'), rec.get('consts', {}).get('UNIT_COUNT')
@@ -44,7 +51,7 @@ def bit_index_rules(run, F, E, decided=()):
         except AnalysisBroken as e:
             if (capacity_of(F, fn)[0], fn.m, 1) not in decided:
                 raise
-            run.note('C20.a steps aside for %s (decided by C20.e): %s' % (fn.short, e))
+            aside(run, 'C20.a', fn, 'index arithmetic: %s' % e)
 
 
 def bit_index_rule(run, F, E, fn, decided_semantically=False):
@@ -88,7 +95,7 @@ def bit_index_rule(run, F, E, fn, decided_semantically=False):
         ok = op_ok and ir.pp(ir.strip(cell['b'])) == '_storage' and unit == want_unit and ir.pp(mask) == want_mask
         if not ok and decided_semantically:
             # a different spelling: whether it is right is C20.e's verdict (every index evaluated), not this shape rule's
-            run.note('C20.a: %s is not spelled unit = i/8, mask = 1 << i%%8; left to C20.e' % inst)
+            aside(run, 'C20.a', fn, 'not spelled unit = i/8, mask = 1 << i%8')
             return
         run.ob('C20.a', '%s: unit = i div 8, mask = 1 << (i mod 8), operator %s' % (inst, {'get': '& != 0', 'set': '|=', 'clear': '&= ~'}[fn.m]), ok,
                where=fn.pat, detail=None if ok else {'unit': unit, 'mask': ir.pp(mask), 'operator_ok': op_ok},
@@ -208,12 +215,18 @@ def invariant_rules(run, F, E, decided=()):
             want_all = 0xFF if fn.m == 'set' else 0
             want_last = last_mask if fn.m == 'set' else 0
             ok_full = (val_last == want_last) and (ext == 1 or val_all == want_all)
-            run.ob('C20.b', 'BitArrayT<%d>::%s() leaves every unit 0x%02X and the last unit 0x%02X (all valid bits %s)' % (
+            if not ok_full and (cap, fn.m, 0) in decided:
+                aside(run, 'C20.b', fn, 'final unit values')
+            else:
+              run.ob('C20.b', 'BitArrayT<%d>::%s() leaves every unit 0x%02X and the last unit 0x%02X (all valid bits %s)' % (
                 cap, fn.m, want_all, want_last, 'set' if fn.m == 'set' else 'clear'), ok_full, where=fn.pat,
                 detail=None if ok_full else {'every unit': val_all, 'last unit': val_last, 'capacity': cap},
                 key='BitArrayT::%s() does not %s every valid bit' % (fn.m, 'set' if fn.m == 'set' else 'clear'))
         what = 'BitArrayT<%d>::%s%s keeps bits >= CAPACITY zero (last unit mask 0x%02X)' % (
             cap, fn.m, '(i)' if fn.params and fn.m in ('set', 'clear') else '()' if not fn.params else '(other)', last_mask)
+        if dirty and (cap, fn.m, len(fn.params)) in decided:
+            aside(run, 'C20.b', fn, 'padding classification')
+            continue
         run.ob('C20.b', what, not dirty, where=fn.pat,
                detail=None if not dirty else {'writes': [(k, v) for k, v, _, _, _ in effects_on_last], 'capacity': cap},
                key='BitArrayT::%s%s sets padding bits of the last unit' % (fn.m, '(i)' if fn.params else '()'))
@@ -228,7 +241,7 @@ def invariant_rules(run, F, E, decided=()):
     # empty() reads whole units: relies on the invariant (recorded, not an obligation of its own)
 
 
-def extent_rules(run, F, E):
+def extent_rules(run, F, E, decided=()):
     table = [('BitArrayT', 'set', 0, '_storage'), ('BitArrayT', 'clear', 0, '_storage'), ('BitArrayT', 'empty', 0, '_storage'),
              ('BitArrayT', 'operator&', 1, '_storage'), ('BitArrayT', 'operator&=', 1, '_storage'),
              ('StaticArrayT', 'fill', 1, '_items'), ('StaticArrayT', 'empty', 0, '_items'),
@@ -248,6 +261,9 @@ def extent_rules(run, F, E):
                 ok = bool(subs) and all(ir.strip(x['i'])['k'] == 'var' and ir.strip(x['i'])['id'] == lps[0].var['id'] for x in subs)
             if ok and lps[0].kind == 'range':
                 ok = lps[0].array == field
+            if not ok and tk == 'BitArrayT' and (capacity_of(F, fn)[0], m, nparams) in decided:
+                aside(run, 'C20.d', fn, 'extent')
+                continue
             run.ob('C20.d', '%s<%s>::%s visits all %d element(s) of %s' % (tk, ','.join(t for t in fn.targs[-1:]), m, ext, field), ok,
                    where=fn.pat, detail=None if ok else [(l.kind, l.start, l.bound_op, l.bound_val, l.step) for l in lps],
                    key='%s::%s does not cover the whole array' % (tk, m))
@@ -256,78 +272,205 @@ def extent_rules(run, F, E):
         if fn.params and fn.m in ('operator&=',):
             ws = [x for x in ir.all_exprs(fn) if x['k'] == 'asg']
             ok = len(ws) == 1 and ws[0]['op'] == '&=' and ir.pp(ir.strip(ws[0]['l'])) == '_storage[i]' and ir.pp(ir.strip(ws[0]['r'])) == 'other._storage[i]'
+            if not ok and (capacity_of(F, fn)[0], fn.m, 1) in decided:
+                aside(run, 'C20.d', fn, '&= shape')
+                continue
             run.ob('C20.d', 'BitArrayT::operator&= ANDs unit i with the other array\'s unit i', ok, where=fn.pat,
                    key='BitArrayT::operator&= combines the wrong units')
         if not fn.params and fn.m == 'empty' and storage_extent(F, fn) is not None:
             rets = [ir.const_val(s['e']) for s in ir.walk_stmts(fn.body) if s.get('s') == 'ret']
             conds = [ir.pp(ir.normalize(s['c'])) for s in ir.walk_stmts(fn.body) if s.get('s') == 'if']
             ok = sorted(r for r in rets if r is not None) == [0, 1] and conds == ['(unit != 0)']
+            if not ok and (capacity_of(F, fn)[0], 'empty', 0) in decided:
+                aside(run, 'C20.d', fn, 'empty() shape')
+                continue
             run.ob('C20.d', 'BitArrayT::empty() is false iff some unit is non-zero', ok, where=fn.pat, detail=None if ok else {'returns': rets, 'conds': conds},
                    key='BitArrayT::empty() tests the wrong condition')
 
 
 def array_rules(run, F, E):
-    for tk in ('StaticArrayT', 'DynamicArrayT'):
-        for fn in F.find(tk, 'operator[]'):
-            rets = [s for s in ir.walk_stmts(fn.body) if s.get('s') == 'ret']
-            ok = len(rets) == 1
-            if ok:
-                e = ir.strip(rets[0]['e'])
-                ok = e['k'] == 'idx' and ir.pp(ir.strip(e['b'])) == '_items' and ir.strip(e['i'])['k'] == 'var' and ir.strip(e['i']).get('pi') == 0
-            run.ob('C20.c', '%s::operator[](i)%s returns _items[i]' % (tk, ' const' if fn.is_const() else ''), ok, where=fn.pat,
-                   key='%s::operator[] does not return the indexed element' % tk)
-        for fn in F.find(tk):
-            if fn.m == 'first' and not fn.params:
-                r = [ir.const_val(s['e']) for s in ir.walk_stmts(fn.body) if s.get('s') == 'ret']
-                run.ob('C20.c', '%s iteration starts at 0' % tk, r == [0], where=fn.pat, key='%s::first() is not 0' % tk)
-            if fn.m == 'next' and len(fn.params) == 1:
-                r = [ir.pp(ir.normalize(s['e'])) for s in ir.walk_stmts(fn.body) if s.get('s') == 'ret']
-                run.ob('C20.c', '%s iteration steps by +1' % tk, r == ['(index + 1)'], where=fn.pat, detail=r, key='%s::next() is not index + 1' % tk)
-            if fn.m == 'limit' and not fn.params:
-                r = [ir.strip(s['e']) for s in ir.walk_stmts(fn.body) if s.get('s') == 'ret']
-                if tk == 'StaticArrayT':
-                    cap = (F.rec_by_name.get(fn.cls) or {}).get('consts', {}).get('CAPACITY')
-                    ok = len(r) == 1 and ir.const_val(r[0]) == cap
-                else:
-                    ok = len(r) == 1 and ir.pp(r[0]) == '_count'
-                run.ob('C20.c', '%s iteration ends at %s' % (tk, 'CAPACITY' if tk == 'StaticArrayT' else '_count'), ok, where=fn.pat,
-                       key='%s::limit() is wrong' % tk)
-    for fn in F.find('StaticArrayT', 'fill'):
-        ws = [(x['l'], x['r']) for x in ir.all_exprs(fn) if x['k'] == 'asg' and x['op'] == '=']
-        ws += [(x['obj'], x['args'][0]) for x in ir.all_exprs(fn) if x['k'] == 'call' and x.get('op') == '=' and x.get('args')]
-        ok = len(ws) == 1 and ir.strip(ws[0][1])['k'] == 'var' and ir.strip(ws[0][1]).get('pi') == 0 and \
-            ir.strip(ws[0][0])['k'] == 'var' and ir.strip(ws[0][0]).get('vk') == 'local'
-        run.ob('C20.c', 'StaticArrayT::fill assigns its argument to each element', ok, where=fn.pat, key='StaticArrayT::fill assigns the wrong value')
-    for fn in F.find('StaticArrayT', 'clear'):
-        calls = [(e.get('m'), [ir.pp(ir.strip(a)) for a in e.get('args', [])]) for e, g in E.call_sites(fn)]
-        ok = any(m == 'fill' and a and a[0].startswith('filler') or (m == 'fill' and a and a[0] in ('255',)) for m, a in calls)
-        run.ob('C20.c', 'StaticArrayT::clear() == fill(filler<Item>())', ok, where=fn.pat, detail=calls, key='StaticArrayT::clear does not fill with the filler')
-    for fn in F.find('StaticArrayT', 'empty'):
-        conds = [ir.strip(s['c']) for s in ir.walk_stmts(fn.body) if s.get('s') == 'if']
-        ok = len(conds) == 1 and conds[0]['k'] in ('bin', 'call')
-        if ok:
-            txt = ir.pp(conds[0])
-            ok = 'filler' in txt or '255' in txt
-        run.ob('C20.c', 'StaticArrayT::empty() compares every element with the same filler', ok, where=fn.pat,
-               key='StaticArrayT::empty compares with something other than the filler')
-    for fn in F.find('DynamicArrayT', 'emplace'):
-        news = [x for x in ir.all_exprs(fn) if x['k'] == 'new']
-        rets = [ir.strip(s['e']) for s in ir.walk_stmts(fn.body) if s.get('s') == 'ret']
-        ok = len(news) == 1 and ir.pp(ir.strip(news[0]['place'][0])) == '&_items[_count]' and len(rets) == 1 and \
-            rets[0]['k'] == 'un' and rets[0]['op'] == '++' and rets[0].get('post') and ir.pp(rets[0]['e']) == '_count'
-        if ok:
-            c = cfgmod.cfg_of(fn)
-            nn = c.events(('new',))
-            ww = c.events(('write',))
-            ok = len(nn) == 1 and len(ww) == 1 and c.dominates(nn[0], ww[0])
-        run.ob('C20.c', 'DynamicArrayT::emplace constructs in slot _count, then returns the old count and increments', ok, where=fn.pat,
-               key='DynamicArrayT::emplace does not append at _count')
-    for fn in F.find('DynamicArrayT'):
-        if fn.m == 'clear' and not fn.params:
-            ws = [x for x in ir.all_exprs(fn) if x['k'] == 'asg']
-            ok = len(ws) == 1 and ir.pp(ws[0]['l']) == '_count' and ir.const_val(ws[0]['r']) == 0
-            run.ob('C20.c', 'DynamicArrayT::clear resets the count', ok, where=fn.pat, key='DynamicArrayT::clear does not reset the count')
+    """C20.c: effect summaries of the array operations in the offset domain (lint/symeval.py): what each operation stores where, what
+    it leaves in the count and what it returns, as a function of its entry state -- independent of how the body is spelled. A
+    function outside the fragment is analysis-broken (exit 2), never a verdict."""
+    from lint import symeval
+    from lint.symeval import Sym, Opaque, Elem, ObjRef
 
+    class All(object):
+        """the summaries of every path of a function (one per combination of the entry-state comparisons it branches on): an
+        attribute read is only defined when all paths agree, otherwise it is DISAGREE -- which equals nothing, so the obligation fails"""
+        def __init__(self, sms):
+            self.sms = sms
+
+        def _same(self, vals):
+            return vals[0] if all(v == vals[0] for v in vals[1:]) else DISAGREE
+        ret = property(lambda self: self._same([m.ret for m in self.sms]))
+        stores = property(lambda self: self._same([m.stores for m in self.sms]))
+
+        @property
+        def fields(self):
+            out = {}
+            for k in self.sms[0].fields:
+                vals = [m.fields.get(k) for m in self.sms]
+                if all(isinstance(v, ObjRef) for v in vals):
+                    out[k] = ObjRef({f: self._same([v.fields.get(f) for v in vals]) for f in vals[0].fields}, vals[0].arrays)
+                else:
+                    out[k] = self._same(vals)
+            return out
+
+    DISAGREE = Opaque('paths disagree')
+
+    def summary(fn, args, fields=None, arrays=('_items',)):
+        import copy
+        f0 = {'_count': Sym('count')} if fields is None else fields
+        try:
+            paths = symeval.explore(lambda a: symeval.Eval(F, copy.deepcopy(f0), arrays, a), fn, args, limit=64)
+        except symeval.Refuse as ex:
+            raise AnalysisBroken('%s is outside the offset-domain fragment: %s' % (fn.short, ex))
+        return All([sm for dec, sm in paths])
+
+    def mentions(v, what):
+        return v == what or (isinstance(v, Opaque) and isinstance(v.tag, tuple) and any(mentions(x, what) for x in v.tag[1:]))
+
+    def is_iter(v, cursor):
+        return isinstance(v, Opaque) and isinstance(v.tag, tuple) and v.tag[0] == 'constructed' and len(v.tag) == 3 and v.tag[1] == ('this',) and v.tag[2] == cursor
+
+    for tk in ('StaticArrayT', 'DynamicArrayT'):
+        for fn in F.find(tk):
+            rec = F.rec_by_name.get(fn.cls) or {}
+            cap = rec.get('consts', {}).get('CAPACITY')
+            limit = cap if tk == 'StaticArrayT' else Sym('count')
+            cn = ' const' if fn.is_const() else ''
+            if fn.m == 'operator[]' and len(fn.params) == 1:
+                sm = summary(fn, [Sym('i')])
+                ok = sm.ret == Elem('_items', Sym('i')) and not sm.stores and sm.fields.get('_count') == Sym('count')
+                run.ob('C20.c', '%s::operator[](i)%s returns element i of the storage and changes nothing' % (tk, cn), ok, where=fn.pat,
+                       detail=None if ok else {'returns': repr(sm.ret), 'stores': repr(sm.stores)}, key='%s::operator[] does not return the indexed element' % tk)
+            elif fn.m == 'first' and not fn.params:
+                sm = summary(fn, [])
+                run.ob('C20.c', '%s iteration starts at 0' % tk, sm.ret == 0, where=fn.pat, detail=repr(sm.ret), key='%s::first() is not 0' % tk)
+            elif fn.m == 'next' and len(fn.params) == 1:
+                sm = summary(fn, [Sym('i')])
+                run.ob('C20.c', '%s iteration steps by +1' % tk, sm.ret == Sym('i', 1), where=fn.pat, detail=repr(sm.ret), key='%s::next() is not index + 1' % tk)
+            elif fn.m == 'limit' and not fn.params:
+                sm = summary(fn, [])
+                run.ob('C20.c', '%s iteration ends at %s' % (tk, 'CAPACITY' if tk == 'StaticArrayT' else 'the count'), sm.ret == limit, where=fn.pat,
+                       detail=repr(sm.ret), key='%s::limit() is wrong' % tk)
+            elif fn.m in ('begin', 'cbegin') and not fn.params:
+                sm = summary(fn, [])
+                run.ob('C20.c', '%s::%s()%s is an iterator over this array at position 0' % (tk, fn.m, cn), is_iter(sm.ret, 0) and not sm.stores, where=fn.pat,
+                       detail=repr(sm.ret), key='%s::%s() does not start at element 0' % (tk, fn.m))
+            elif fn.m in ('end', 'cend') and not fn.params:
+                sm = summary(fn, [])
+                run.ob('C20.c', '%s::%s()%s is an iterator over this array at position %s' % (tk, fn.m, cn, 'CAPACITY' if tk == 'StaticArrayT' else '<count>'),
+                       is_iter(sm.ret, limit) and not sm.stores, where=fn.pat, detail=repr(sm.ret), key='%s::%s() is not one past the last element' % (tk, fn.m))
+            elif fn.m == 'count' and not fn.params:
+                sm = summary(fn, [])
+                run.ob('C20.c', '%s::count() reports %s' % (tk, 'CAPACITY' if tk == 'StaticArrayT' else 'the count'), sm.ret == limit, where=fn.pat,
+                       detail=repr(sm.ret), key='%s::count() is wrong' % tk)
+    # iterators: position compared with the container's limit, advanced by one, dereferenced at the position
+    for fn in F.find('IteratorT'):
+        if fn.kind in ('ctor', 'dtor') or fn.d.get('implicit'):
+            continue
+        cont = 'StaticArrayT' if 'StaticArrayT<' in fn.cls else 'DynamicArrayT'
+        limit = None
+        if cont == 'StaticArrayT':
+            continue   # cannot be instantiated (IteratorT befriends DynamicArrayT only); nothing to decide
+        fields = {'_cursor': Sym('cur'), '_container': ObjRef({'_count': Sym('count')}, ['_items'])}
+        sm = summary(fn, [Opaque('other')], fields, ())
+        if fn.m == 'operator!=':
+            r = sm.ret
+            ok = isinstance(r, Opaque) and isinstance(r.tag, tuple) and r.tag[0] == 'cmp' and \
+                ((r.tag[1] in ('!=', '<') and r.tag[2:] == (Sym('cur'), Sym('count'))) or (r.tag[1] in ('!=', '>') and r.tag[2:] == (Sym('count'), Sym('cur'))))
+            run.ob('C20.c', 'IteratorT::operator!= is "position != the container\'s count"', ok, where=fn.pat, detail=repr(r), key='IteratorT::operator!= does not stop at the count')
+        elif fn.m == 'operator++':
+            ok = sm.fields.get('_cursor') == Sym('cur', 1) and not sm.stores and sm.fields['_container'].fields.get('_count') == Sym('count')
+            run.ob('C20.c', 'IteratorT::operator++ advances the position by exactly one and changes nothing else', ok, where=fn.pat,
+                   detail=repr(sm.fields.get('_cursor')), key='IteratorT::operator++ does not step by one')
+        elif fn.m in ('operator*', 'operator->'):
+            ok = sm.ret == Elem('_items', Sym('cur')) and sm.fields.get('_cursor') == Sym('cur') and not sm.stores
+            run.ob('C20.c', 'IteratorT::%s denotes the element at the position' % fn.m, ok, where=fn.pat, detail=repr(sm.ret),
+                   key='IteratorT::%s does not denote the element at the position' % fn.m)
+    # fixed array: fill / clear / empty
+    filler_of = {}
+    for fn in F.find('StaticArrayT', 'fill'):
+        ext = storage_extent(F, fn, '_items')
+        sm = summary(fn, [Opaque('arg')], {}, ('_items',))
+        idx = sorted(i for a, i, v in sm.stores if isinstance(i, int))
+        ok = idx == list(range(ext)) and len(sm.stores) == ext and all(a == '_items' and v == Opaque('arg') for a, i, v in sm.stores)
+        run.ob('C20.c', 'StaticArrayT::fill(v) stores v in each of the %d elements, once' % ext, ok, where=fn.pat,
+               detail=None if ok else {'stores': repr(sm.stores[:6]), 'extent': ext}, key='StaticArrayT::fill assigns the wrong value')
+    for fn in F.find('StaticArrayT', 'clear'):
+        ext = storage_extent(F, fn, '_items')
+        sm = summary(fn, [], {}, ('_items',))
+        idx = sorted(i for a, i, v in sm.stores if isinstance(i, int))
+        vals = set(v for a, i, v in sm.stores)
+        ok = idx == list(range(ext)) and len(vals) == 1
+        if ok:
+            filler_of[fn.cls] = next(iter(vals))
+        run.ob('C20.c', 'StaticArrayT::clear() stores one and the same filler in each of the %d elements' % ext, ok, where=fn.pat,
+               detail=None if ok else {'stores': repr(sm.stores[:6])}, key='StaticArrayT::clear does not fill with the filler')
+    for fn in F.find('StaticArrayT', 'empty'):
+        ext = storage_extent(F, fn, '_items')
+        try:
+            paths = symeval.explore(lambda a: symeval.Eval(F, {}, ['_items'], a), fn, [])
+        except symeval.Refuse as ex:
+            raise AnalysisBroken('StaticArrayT::empty is outside the offset-domain fragment: %s' % ex)
+        bad = None
+        fillers = set()
+        for dec, sm in paths:
+            same = set()     # elements known to equal the filler
+            differs = False
+            for (op, a, b), d in dec.items():
+                el, fv = (a, b) if isinstance(a, Opaque) and isinstance(a.tag, tuple) and a.tag[0] == 'entry' else (b, a)
+                if not (isinstance(el, Opaque) and isinstance(el.tag, tuple) and el.tag[0] == 'entry') or op not in ('==', '!='):
+                    bad = bad or {'unexpected test': repr((op, a, b))}
+                    continue
+                fillers.add(fv)
+                if (op == '!=') == d:
+                    differs = True
+                else:
+                    same.add(el.tag[2])
+            good = (sm.ret == 1 and same == set(range(ext))) or (sm.ret == 0 and differs)
+            if not good and bad is None:
+                bad = {'returns': repr(sm.ret), 'elements known equal to the filler': sorted(same), 'some element known different': differs}
+        want = filler_of.get(fn.cls)
+        if bad is None and (len(fillers) != 1 or (want is not None and fillers != {want})):
+            bad = {'compares with': repr(sorted(map(repr, fillers))), 'clear() stores': repr(want)}
+        run.ob('C20.c', 'StaticArrayT::empty() is true exactly when every one of the %d elements equals the filler clear() stores (%d decision paths)' % (ext, len(paths)),
+               bad is None, where=fn.pat, detail=bad, key='StaticArrayT::empty compares with something other than the filler')
+    # growable array
+    for fn in F.find('DynamicArrayT'):
+        if fn.m == 'emplace' or (fn.m == 'operator+=' and fn.params and 'DynamicArrayT' not in fn.params[0]['ty']):
+            # whatever the spelling: the one store goes to slot <entry count> and carries the argument, the count ends at <entry count> + 1;
+            # emplace returns the old count, += returns the array
+            sm = summary(fn, [Opaque('arg')])
+            ok = len(sm.stores) == 1 and sm.stores[0][0] == '_items' and sm.stores[0][1] == Sym('count') and mentions(sm.stores[0][2], Opaque('arg')) and \
+                sm.fields.get('_count') == Sym('count', 1) and sm.ret == (Sym('count') if fn.m == 'emplace' else ('this',))
+            run.ob('C20.c', 'DynamicArrayT::%s constructs the argument in slot <count>, leaves count + 1 and returns %s' % (fn.m, 'the old count' if fn.m == 'emplace' else 'the array'),
+                   ok, where=fn.pat, detail=None if ok else {'stores': repr(sm.stores), 'count afterwards': repr(sm.fields.get('_count')), 'returns': repr(sm.ret)},
+                   key='DynamicArrayT::%s does not append at _count' % fn.m)
+        elif fn.m == 'operator+=' and fn.params:
+            # += of a whole array: appends each element of the other array in its iteration order (range-for over the other array whose
+            # body is the single-item +=/emplace)
+            rf = [x for x in ir.walk_stmts(fn.body) if x.get('s') == 'rfor']
+            ok = len(rf) == 1 and ir.strip(rf[0]['range']).get('pi') == 0
+            if ok:
+                calls = [x for t in ir.walk_stmts(rf[0].get('body')) for e in ir.stmt_exprs(t) for x in ir.walk(e) if x['k'] == 'call']
+                vid = rf[0]['var']['id']
+                ok = len(calls) == 1 and calls[0].get('m') in ('emplace', 'operator+=') and len(calls[0].get('args', [])) == 1 and \
+                    any(x['k'] == 'var' and x.get('id') == vid for x in ir.walk(calls[0]['args'][0]))
+            run.ob('C20.c', 'DynamicArrayT::operator+=(array) appends every element of the other array, in its order', ok, where=fn.pat,
+                   key='DynamicArrayT::operator+=(array) does not append each element')
+        elif fn.m == 'clear' and not fn.params:
+            sm = summary(fn, [])
+            run.ob('C20.c', 'DynamicArrayT::clear resets the count', sm.fields.get('_count') == 0, where=fn.pat, detail=repr(sm.fields.get('_count')),
+                   key='DynamicArrayT::clear does not reset the count')
+        elif fn.m == 'empty' and not fn.params:
+            sm = summary(fn, [])
+            r = sm.ret
+            ok = isinstance(r, Opaque) and isinstance(r.tag, tuple) and r.tag[0] == 'cmp' and \
+                ((r.tag[1] == '==' and set(r.tag[2:]) == {Sym('count'), 0}) or (r.tag[1:] == ('<=', Sym('count'), 0)) or (r.tag[1:] == ('<', Sym('count'), 1)))
+            run.ob('C20.c', 'DynamicArrayT::empty() is "count == 0"', ok, where=fn.pat, detail=repr(r), key='DynamicArrayT::empty is not count == 0')
 
 
 def refinement(run, F):
@@ -385,6 +528,23 @@ def refinement(run, F):
                     if bit(data, p) != want and bad is None:
                         bad = {'storage bit': p, 'holds': str(bit(data, p)), 'expected': str(want)}
                 what = '%s(): every valid bit becomes %d, padding stays 0' % (fn.m, 1 if fn.m == 'set' else 0)
+            elif fn.m == 'empty' and not fn.params:
+                # predicate abstraction over "this group of stored bits is zero": one run per combination of the zero tests the
+                # function actually performs. empty() may answer true only when every valid bit is known to be zero, and false
+                # only when some valid bit group is known to be non-zero.
+                valid = set(('s', p) for p in range(cap))
+                paths = I.explore(fn, lambda: {'_storage': fresh('s')})
+                cases += len(paths)
+                for decisions, res, this_after in paths:
+                    r = None if res is None else bitprov.to_int(res)
+                    zero_bits = set(b for key, nz in decisions.items() if not nz for b in key)
+                    some_nonzero = any(nz and all(b in valid for b in key) for key, nz in decisions.items())
+                    good = (r == 1 and valid <= zero_bits) or (r == 0 and some_nonzero)
+                    if this_after['_storage'] != fresh('s'):
+                        good = False
+                    if not good and bad is None:
+                        bad = {'returns': r, 'bits known zero': len(zero_bits & valid), 'of': cap, 'a group known non-zero': some_nonzero}
+                what = 'empty(): true exactly when every valid bit is zero (%d decision paths over the unit zero tests)' % len(paths)
             elif fn.m == 'operator&=':
                 data = fresh('s')
                 other = fresh('o')
@@ -432,7 +592,7 @@ def run(run):
         decided = refinement(run, F)
         bit_index_rules(run, F, E, decided)
         invariant_rules(run, F, E, decided)
-        extent_rules(run, F, E)
+        extent_rules(run, F, E, decided)
         if w != 'w_bitarrays':
             array_rules(run, F, E)
         facts.drop(F)
